@@ -136,7 +136,7 @@ pub fn wallet_from_int(network: &str, int_rep: BigInt) -> Result<PyWallet, Chain
         // Convert the 32-byte array to a slice
         let key_bytes: &[u8; 32] = &big_int_bytes.try_into().expect("Expected 32-byte array");
         let key_array: &GenericArray<u8, U32> = GenericArray::from_slice(key_bytes);
-        let private_key = SigningKey::from_bytes(key_array).expect("Invalid private key");
+        let private_key = SigningKey::from_bytes(key_array)?;
 
         let public_key = *private_key.verifying_key();
         let wallet = Wallet::new(private_key, public_key, netwrk);
@@ -168,8 +168,8 @@ impl PyWallet {
     /// Sign a transaction with the provided previous tx, Returns new signed tx
     fn sign_tx(&mut self, index: usize, input_pytx: PyTx, pytx: PyTx) -> PyResult<PyTx> {
         // Convert PyTx -> Tx
-        let input_tx = input_pytx.as_tx();
-        let mut tx = pytx.as_tx();
+        let input_tx = input_pytx.as_tx()?;
+        let mut tx = pytx.as_tx()?;
         let sighash_type = SIGHASH_ALL | SIGHASH_FORKID;
         self.wallet
             .sign_tx_input(&input_tx, &mut tx, index, sighash_type)?;
@@ -186,8 +186,8 @@ impl PyWallet {
         sighash_type: u8,
     ) -> PyResult<PyTx> {
         // Convert PyTx -> Tx
-        let input_tx = input_pytx.as_tx();
-        let mut tx = pytx.as_tx();
+        let input_tx = input_pytx.as_tx()?;
+        let mut tx = pytx.as_tx()?;
         self.wallet
             .sign_tx_input(&input_tx, &mut tx, index, sighash_type)?;
         let updated_txpy = tx_as_pytx(&tx);
@@ -203,8 +203,8 @@ impl PyWallet {
         checksig_index: usize,
     ) -> PyResult<PyTx> {
         // Convert PyTx -> Tx
-        let input_tx = input_pytx.as_tx();
-        let mut tx = pytx.as_tx();
+        let input_tx = input_pytx.as_tx()?;
+        let mut tx = pytx.as_tx()?;
         self.wallet
             .sign_tx_input_checksig_index(&input_tx, &mut tx, index, sighash_type, checksig_index)?;
         let updated_txpy = tx_as_pytx(&tx);
@@ -302,7 +302,7 @@ impl PyWallet {
             }
             // Convert &[u8] to a GenericArray<u8, 32>
             let key_array: &GenericArray<u8, U32> = GenericArray::from_slice(key_bytes);
-            let private_key = SigningKey::from_bytes(key_array).expect("Invalid private key");
+            let private_key = SigningKey::from_bytes(key_array).map_err(ChainGangError::from)?;
             let public_key = *private_key.verifying_key();
             let wallet = Wallet::new(private_key, public_key, netwrk);
             Ok(PyWallet { wallet })
@@ -329,7 +329,7 @@ impl PyWallet {
 
             // Convert &[u8] to a GenericArray<u8, 32>
             let key_array: &GenericArray<u8, U32> = GenericArray::from_slice(&key_bytes);
-            let private_key = SigningKey::from_bytes(key_array).expect("Invalid private key");
+            let private_key = SigningKey::from_bytes(key_array).map_err(ChainGangError::from)?;
             let public_key = *private_key.verifying_key();
             let wallet = Wallet::new(private_key, public_key, netwrk);
             Ok(PyWallet { wallet })
